@@ -668,7 +668,47 @@ private:"""),
     dict(property="C03", name="removal-predicate-strict", rule="R-C03-8", file="src/solver/bundle.cpp",
          old="{ return m_bundleE(i) >= thres; });", new="{ return m_bundleE(i) > thres; });"),
     dict(property="C03", name="delete-only-one-cut", rule="R-C03-8", file="src/solver/bundle.cpp",
-         old="    delete_largest(2);", new="    delete_largest(1);"),]
+         old="    delete_largest(2);", new="    delete_largest(1);"),    # ---- C04
+    dict(property="C04", name="converged-without-feasible", rule="R-C04-1", file="src/program/solver.cpp",
+         old="if (feasible && std::max({state.m_eta, state.m_rdual.lpNorm<2>(), state.m_rprim.lpNorm<2>()}) < epsilon)",
+         new="if (std::max({state.m_eta, state.m_rdual.lpNorm<2>(), state.m_rprim.lpNorm<2>()}) < epsilon)"),
+    dict(property="C04", name="converged-ignores-primal-residual", rule="R-C04-1", file="src/program/solver.cpp",
+         old="if (feasible && std::max({state.m_eta, state.m_rdual.lpNorm<2>(), state.m_rprim.lpNorm<2>()}) < epsilon)",
+         new="if (feasible && std::max({state.m_eta, state.m_rdual.lpNorm<2>()}) < epsilon)"),
+    dict(property="C04", name="done-called-with-loose-epsilon", rule="R-C04-1", file="src/program/solver.cpp",
+         old="""            // very precise convergence detected, check global convergence criterion!
+            done(program, state, epsilon, logger);""", new="""            // very precise convergence detected, check global convergence criterion!
+            done(program, state, std::sqrt(epsilon), logger);"""),
+    dict(property="C04", name="stall-marks-converged-directly", rule="R-C04-1", file="src/program/solver.cpp",
+         old="""            // very precise convergence detected, check global convergence criterion!
+            done(program, state, epsilon, logger);""", new="""            // very precise convergence detected
+            state.m_status = solver_status::converged;"""),
+    dict(property="C04", name="objective-not-rescaled", rule="R-C04-2", file="src/program/solver.cpp",
+         old="        state.m_fx *= m_mufx; // NB: rescale the objective!\n", new=""),
+    dict(property="C04", name="objective-rescaled-only-for-qp", rule="R-C04-2", file="src/program/solver.cpp",
+         old="""            state.m_rdual = Q() * x + m_c;
+        }
+        state.m_fx *= m_mufx; // NB: rescale the objective!""", new="""            state.m_rdual = Q() * x + m_c;
+            state.m_fx *= m_mufx; // NB: rescale the objective!
+        }"""),
+    dict(property="C04", name="normalize-b-separately", rule="R-C04-3", file="src/program/solver.cpp",
+         old="""    A.array() /= denom;
+    b.array() /= denom;""", new="""    A.array() /= denom;
+    b.array() /= std::max(min_norm, b.lpNorm<2>());"""),
+    dict(property="C04", name="inequalities-not-normalised-together", rule="R-C04-3", file="src/program/solver.cpp",
+         old="        ::normalize(m_G, m_h);", new="        ::normalize(m_G, m_b);"),
+    dict(property="C04", name="reduce-splits-wrong-column", rule="R-C04-4", file="src/program/util.cpp",
+         old="    b = Ab.matrix().col(Ab.cols() - 1);", new="    b = Ab.matrix().col(Ab.cols() - 2);"),
+    dict(property="C04", name="feasibility-guard-non-strict", rule="R-C04-5", file="src/program/solver.cpp",
+         old="if (const auto mGxh = (G * x0 - h).maxCoeff(); mGxh >= 0.0)", new="if (const auto mGxh = (G * x0 - h).maxCoeff(); mGxh > 0.0)"),
+    dict(property="C04", name="du-recovery-sign", rule="R-C04-6", file="src/program/solver.cpp",
+         old="du = (state.m_rcent.array() - state.m_u.array() * (G * dx).array()) / Gxh.array();", new="du = (state.m_rcent.array() + state.m_u.array() * (G * dx).array()) / Gxh.array();"),
+    dict(property="C04", name="rcent-missing-complementarity", rule="R-C04-6", file="src/program/solver.cpp",
+         old="state.m_rcent = -state.m_eta / (miu * sm) - u.array() * (m_G * x - m_h).array();", new="state.m_rcent = -state.m_eta / (miu * sm) - u.array();"),
+    dict(property="C04", name="reduced-rhs-missing-rcent", rule="R-C04-6", file="src/program/solver.cpp",
+         old="state.m_rdual + G.transpose() * (state.m_rcent.array() / Gxh.array()).matrix(), state.m_rprim);", new="state.m_rdual, state.m_rprim);"),
+    dict(property="C04", name="initial-multipliers-negative", rule="R-C04-7", file="src/program/solver.cpp",
+         old="    state.m_u = -1.0 / (G * x0 - h).array();", new="    state.m_u = 1.0 / (G * x0 - h).array();"),]
 
 BENIGN = [
     dict(property="C07", name="get-descent-test-inlined", file="src/lsearchk.cpp",
@@ -786,4 +826,7 @@ BENIGN = [
     (void)err;
 
     return smeared_e() <= tol;"""),
+    dict(property="C04", name="done-threshold-operands-swapped", file="src/program/solver.cpp",
+         old="if (feasible && std::max({state.m_eta, state.m_rdual.lpNorm<2>(), state.m_rprim.lpNorm<2>()}) < epsilon)",
+         new="if (feasible && std::max({state.m_rprim.lpNorm<2>(), state.m_eta, state.m_rdual.lpNorm<2>()}) < epsilon)"),
 ]
